@@ -222,8 +222,18 @@ def run(ctx):
             f.writelines(lines[:idx[len(idx) // 2]] + lines[idx[len(idx) // 2] + 1:])
         return vlib.validate_trace(ctx, "sync", "MutexMon", cp)["accepted"]
 
+    def found_so_far():
+        n = sum(1 for v in rep.violations if v.get("sched") == "plain")
+        for _, _, _, fu in pending:
+            if fu.done() and not fu.exception():
+                n += len(fu.result()[2])
+        return n
+
     for mode, xe, scnfile, args, total, scnmap in runs:
         t0 = time.time()
+        if not mode.startswith("inline") and mode != "guided-v1" and found_so_far() >= 3:
+            rep.note("%s: skipped (violations already found in earlier runs)" % mode)
+            continue
         lp = os.path.join(ctx.work, "log_%s.ndjson" % mode)
         sums, deaths = vlib.run_batches(ctx, xe, ["--scenarios", scnfile] + args, total, lp, timeout=3000,
                                         max_deaths=6 if mode.startswith("inline") else 12)
